@@ -100,8 +100,23 @@ def rule_D4(tree: Tree) -> RuleResult:
         ok = int_of_split(store[0].targets[0].slice, 0) and int_of_split(store[0].value, 1)
     splits = [n for n in body_walk(g.node) if isinstance(n, ast.Call) and isinstance(n.func, ast.Attribute) and n.func.attr == "split" and n.args and try_fold(n.args[0]) == ":"]
     comma = [n for n in body_walk(g.node) if isinstance(n, ast.Call) and isinstance(n.func, ast.Attribute) and n.func.attr == "replace" and n.args and try_fold(n.args[0]) == ","]
-    r.ob(ok and bool(splits) and bool(comma), Finding("D4", "main:get_port_map:int-pairs",
-                                                      "each -m item must be split on ':' (after removing ',') into int(server port) → int(output port)", main.line(g.node)))
+    # the comma-stripped token is what gets split, and every listed pair is stored (no skipping path through the loop body)
+    gcfg = cfg_of(g.node)
+    order_ok = False
+    if splits and comma and len(store) == 1:
+        sp_n, cm_n, st_n = gcfg.node_of(splits[0]), gcfg.node_of(comma[0]), gcfg.node_of(store[0])
+        loop = next((n for n in gcfg.nodes if n.kind == "for" and sp_n in gcfg.loop_body_nodes(n.id)), None)
+        recv = dotted(splits[0].func.value)
+        cm_tgt = dotted(gcfg.nodes[cm_n].ast.targets[0]) if isinstance(gcfg.nodes[cm_n].ast, ast.Assign) else None
+        order_ok = loop is not None and gcfg.dominates(cm_n, sp_n) and recv == cm_tgt
+        if order_ok:
+            # every path from the loop header (T) back to the header passes the store
+            body = gcfg.loop_body_nodes(loop.id)
+            back = [p2 for p2 in gcfg.predecessors(loop.id) if p2 in body]
+            order_ok = all(gcfg.dominates(st_n, b2) or st_n == b2 for b2 in back)
+    r.ob(ok and bool(splits) and bool(comma) and order_ok, Finding("D4", "main:get_port_map:int-pairs",
+                                                      "each -m item must be split on ':' *after* removing ',' into int(server port) → int(output port), and every item must be stored "
+                                                      "(no path through the loop may skip a pair, e.g. one written with a trailing comma)", main.line(g.node)))
     # run(): server_ports extended with int(x)
     r.instances += 1
     run = tree.func("main", "run")
